@@ -81,6 +81,11 @@ func (e *Engine) runPath(st *State) {
 					where = e.siteIn(st)
 				}
 				msg := fmt.Sprintf("engine panic: %v @ %s", r, where)
+				if os.Getenv("GOSMT_DEBUG_PANIC") != "" {
+					for i := len(st.frames) - 1; i >= 0 && i >= len(st.frames)-12; i-- {
+						msg += "\n   frame " + st.frames[i].fn.String()
+					}
+				}
 				if e.Cfg.Verbose || os.Getenv("GOSMT_DEBUG") != "" {
 					msg += "\n" + string(debug.Stack())
 				}
@@ -946,6 +951,25 @@ func (e *Engine) invokeValue(st *State, fnv Value, args []Value, dest ssa.Value,
 	if len(fn.Blocks) == 0 {
 		panic(unsupported("function without body: " + name))
 	}
+	if e.Cfg.Summarise[name] {
+		// side-effect-free scalar function named in the check configuration: all its paths merged into one term
+		sym := false
+		for _, a := range args {
+			if t, ok := a.(*smt.Term); ok && !t.IsConst() {
+				sym = true
+			}
+		}
+		if sym {
+			if len(args) == 1 {
+				if t := args[0].(*smt.Term); t.S.W > 0 && t.S.W <= 8 {
+					finish(e.tabulated(st, fv, t))
+					return
+				}
+			}
+			finish(e.summarise(st, fv, args))
+			return
+		}
+	}
 	e.pushFrame(st, fn, args, fv.Bind, dest, mode)
 }
 
@@ -1023,4 +1047,45 @@ func permutations(n int) [][]int {
 		}
 	}
 	return out
+}
+
+// tabulated is the summary of a pure function of one byte-sized argument: the function is run once on
+// each of the 2^w concrete argument values (cached for the run) and the call becomes one ite term.
+func (e *Engine) tabulated(st *State, fv FuncV, arg *smt.Term) *smt.Term {
+	c := e.C
+	name := fv.Fn.String()
+	tab, ok := e.tables[name]
+	if !ok {
+		n := 1 << uint(arg.S.W)
+		tab = make([]*smt.Term, n)
+		for k := 0; k < n; k++ {
+			r := e.summarise(st, fv, []Value{c.Const(uint64(k), arg.S.W)})
+			if !r.IsConst() {
+				panic(unsupported("tabulated: " + name + " is not a function of its argument alone"))
+			}
+			tab[k] = r
+		}
+		if e.tables == nil {
+			e.tables = map[string][]*smt.Term{}
+		}
+		e.tables[name] = tab
+	}
+	// most frequent result is the default
+	count := map[uint64]int{}
+	for _, r := range tab {
+		count[r.Val]++
+	}
+	def := tab[0]
+	for _, r := range tab {
+		if count[r.Val] > count[def.Val] {
+			def = r
+		}
+	}
+	res := def
+	for k := len(tab) - 1; k >= 0; k-- {
+		if tab[k].Val != def.Val {
+			res = c.Ite(c.Eq(arg, c.Const(uint64(k), arg.S.W)), tab[k], res)
+		}
+	}
+	return res
 }
